@@ -253,9 +253,51 @@ def members_reading_other_kinds(out):
     return n
 
 
+def equal_looking_members(out):
+    """members that are different types although their parts compare equal as Python values -- Literal[1] next to Literal[True],
+    Literal[0] next to Literal[False], the same inside Tuple[...] and List[...] -- in both orders, and with a third member after
+    them: the union succeeds exactly when some member accepts the value alone, with the result of the left-most one."""
+    import typing as t
+    import pane
+    n = 0
+    L = t.Literal
+    unions = [[L[1], L[True]], [L[True], L[1]], [L[0], L[False]], [L[False], L[0], str], [L[1], L[True], L[1.0]], [L['a'], L['a', 'b']],
+              [t.Tuple[L[1]], t.Tuple[L[True]]], [t.List[L[True]], t.List[L[1]]], [t.List[int], t.List[float]], [t.Dict[str, L[0]], t.Dict[str, L[False]]]]
+    probes = [1, True, 0, False, 1.0, 0.0, 'a', 'b', [1], [True], [1, True], [1.5], (1,), (True,), {'k': 0}, {'k': False}, None]
+
+    def alone(v, T):
+        try:
+            r = pane.from_data(v, T)
+            return ('ok', type(r).__name__, repr(r))
+        except pane.ConvertError:
+            return ('error',)
+        except Exception as e:
+            return ('escape', type(e).__name__)
+    with warnings.catch_warnings():
+        warnings.simplefilter('ignore')
+        for ms in unions:
+            U = t.Union[tuple(ms)]
+            if len(t.get_args(U)) != len(ms):
+                continue
+            for wrap_label, TT, mk, MT in (('top', U, lambda p: p, lambda m: m), ('list element', t.List[U], lambda p: [p], lambda m: t.List[m]),
+                                           ('optional', t.Optional[U], lambda p: p, lambda m: m)):
+                for p in probes:
+                    n += 1
+                    if wrap_label == 'optional' and p is None:
+                        continue
+                    singles = [alone(mk(p), MT(m)) for m in ms]
+                    want = next((r for r in singles if r[0] == 'ok'), ('error',))
+                    got = alone(mk(p), TT)
+                    if got != want:
+                        out.violation('C11:equal-looking-members', f'{wrap_label}: from_data({mk(p)!r}, {TT!r}) gives {got}; the members alone give {singles}, so the '
+                                      f'left-most accepting member gives {want}', {'union': repr(TT), 'value': repr(mk(p))})
+    return n
+
+
 def run(ctx, out):
     out.evaluations += members_reading_other_kinds(out)
     out.evaluations += members_left_of_none(out)
+    out.evaluations += equal_looking_members(out)
     import families as _famgp
     out.evaluations += _famgp.generic_parameter_twins(out, PROP)
     import families as _fam
